@@ -304,10 +304,14 @@ def r4_accumulation(ctx):
         raise AnalysisError("ReactionSystem.rates: CSTR block shape changed")
     fr, fc = target_names(unp[0].targets[0])
     l3 = lps[0]
-    ctx.check(U(l3.iter) == "%s.items()" % fc, a, "cstr-all-feeds", "CSTR loop source %s" % U(l3.iter), node=l3)
+    ok_src = U(l3.iter) == "%s.items()" % fc and len(target_names(l3.target)) == 2
+    ctx.check(ok_src, a, "cstr-all-feeds", "the stirred-tank term must be added for exactly the substances of the feed map (`for sk, fck in %s.items()`); loop is `for %s in %s`" % (
+        fc, U(l3.target), U(l3.iter)), node=l3)
+    if not ok_src:
+        return _dcdt(ctx)
     sk, fck = target_names(l3.target)
     ups = subscript_stores(l3.body, "result")
-    ok = len(ups) == 1 and ups[0].kind == "+=" and U(ups[0].key) == sk
+    ok = len(ups) == 1 and ups[0].kind == "+=" and U(ups[0].key) == sk and ups[0].cond is None
     if ok:
         val = ups[0].value
         ok = isinstance(val, ast.BinOp) and isinstance(val.op, ast.Mult)
@@ -315,6 +319,10 @@ def r4_accumulation(ctx):
             fa, fb = (val.left, val.right) if U(val.left) == "variables[%s]" % fr else (val.right, val.left)
             ok = U(fa) == "variables[%s]" % fr and linform(fb) == {"variables[%s]" % fck: F1, "variables[%s]" % sk: -F1}
     ctx.check(ok, a, "cstr=F*(c_feed-c)", "CSTR term must be result[sk] += variables[fr] * (variables[feed] - variables[sk]); found %s" % (U(ups[0].stmt) if ups else None), node=l3)
+    _dcdt(ctx)
+
+
+def _dcdt(ctx):
     # dCdt_list
     fn = ctx.func(ODE, "dCdt_list")
     a = ODE + ":dCdt_list"
@@ -360,6 +368,8 @@ MUTANTS = [
     Mutant("cstr-sign", [(RSYS, "variables[fr_key] * (variables[fck] - variables[sk])", "variables[fr_key] * (variables[sk] - variables[fck])")], "C03-R4", "cstr"),
     Mutant("dcdt-transposed", [(ODE, "f[idx_s] += net_stoichs[idx_r, idx_s] * rates[idx_r]", "f[idx_s] += net_stoichs[idx_s, idx_r] * rates[idx_r]")], "C03-R4", "f[s]"),
 ]
+
+MUTANTS.append(Mutant("cstr-outflow-for-unfed-species", [(RSYS, "            for sk, fck in fc.items():\n                result[sk] += variables[fr_key] * (variables[fck] - variables[sk])", "            for sk in result:\n                c_feed = variables[fc[sk]] if sk in fc else 0\n                result[sk] += variables[fr_key] * (c_feed - variables[sk])")], "C03-R4", "cstr-all-feeds"))
 
 TWINS = [
     Twin("net-reordered-terms", [(CHEM, "            self.prod.get(k, 0)\n            - self.reac.get(k, 0)\n            + self.inact_prod.get(k, 0)\n            - self.inact_reac.get(k, 0)", "            self.prod.get(k, 0)\n            + self.inact_prod.get(k, 0)\n            - self.reac.get(k, 0)\n            - self.inact_reac.get(k, 0)")]),
